@@ -59,16 +59,18 @@ func (c *c14frtCrawler) Run(ctx context.Context, start []*peer.AddrInfo, ok craw
 }
 
 type c14frtCase struct {
-	ctor     string
-	noProvs  bool
-	noValues bool
-	npeers   int
-	interval time.Duration
-	ops      []string
-	closeAt  int
-	conc2    bool
-	strat    int
-	failPct  int
+	ctor       string
+	noProvs    bool
+	noValues   bool
+	npeers     int
+	interval   time.Duration
+	ops        []string
+	closeAt    int
+	closeOp1   int // >0: Close follows the start of operation closeOp1-1 by closeDelay steps
+	closeDelay int
+	conc2      bool
+	strat      int
+	failPct    int
 }
 
 var c14frtCid = func() cid.Cid {
@@ -128,7 +130,7 @@ func c14frtRun(r *vfRand, c *c14frtCase, tr *zzc14.Trace) (*zzc14.Plan, string) 
 		}()
 		d, err = NewFullRT(h, prefix, opts...)
 	}()
-	plan := &zzc14.Plan{Gate: gate, UseWait: true, CloseAt: c.closeAt, Concurrent2: c.conc2, MaxSteps: 2000, Idle: 10 * time.Second, MaxIdle: 20,
+	plan := &zzc14.Plan{Gate: gate, UseWait: true, CloseAt: c.closeAt, CloseOp1: c.closeOp1, CloseDelay: c.closeDelay, Concurrent2: c.conc2, MaxSteps: 2000, Idle: 10 * time.Second, MaxIdle: 20,
 		Final: func() { _ = h.Close() }}
 	base := zzc14.PickBy(c.strat, r.Intn)
 	plan.Pick = func(step int, pend []*zzc14.Call) int {
@@ -236,6 +238,9 @@ func c14frtGen(r *vfRand, i int) *c14frtCase {
 		c.closeAt = r.Intn(4 + 5*len(c.ops))
 	}
 	c.conc2 = r.Chance(30)
+	if len(c.ops) > 0 && r.Chance(55) {
+		c.closeOp1, c.closeDelay = 1+r.Intn(len(c.ops)), 1+r.Intn(4)
+	}
 	return c
 }
 
@@ -245,7 +250,7 @@ func TestVerifC14FullRT(t *testing.T) {
 	zzc14.StartClock()
 	seed := vfSeed()
 	n := vfEnvInt("VERIF_N", 60)
-	only := vfOnly()
+	only := zzc14.Only(6, vfOnly())
 	cs := vfNewCases("Run_C14", 50)
 	curDesc := map[string]any{}
 	zzc14.OnHang(func(label, stacks string) {
@@ -256,12 +261,12 @@ func TestVerifC14FullRT(t *testing.T) {
 	root := vfNewRand(seed)
 	for i := 0; i < n; i++ {
 		r := root.Fork()
-		if only >= 0 && i != only {
+		if only != -1 && i != only {
 			continue
 		}
 		c := c14frtGen(r, i)
-		desc := map[string]any{"case": i, "seed": seed, "pkg": "fullrt", "comp": "fullrt", "ctor": c.ctor, "noProviders": c.noProvs, "noValues": c.noValues,
-			"npeers": c.npeers, "crawl_interval_s": c.interval.Seconds(), "ops": c.ops, "closeAt": c.closeAt, "concurrent2": c.conc2, "strategy": c.strat, "failPct": c.failPct}
+		desc := map[string]any{"case": zzc14.CaseID(6, i), "seed": seed, "pkg": "fullrt", "comp": "fullrt", "ctor": c.ctor, "noProviders": c.noProvs, "noValues": c.noValues,
+			"npeers": c.npeers, "crawl_interval_s": c.interval.Seconds(), "ops": c.ops, "closeAt": c.closeAt, "closeOp1": c.closeOp1, "closeDelay": c.closeDelay, "concurrent2": c.conc2, "strategy": c.strat, "failPct": c.failPct}
 		curDesc = desc
 		tr := &zzc14.Trace{}
 		var plan *zzc14.Plan
